@@ -218,4 +218,37 @@ def dumpModel (cfg : DumpCfg) (crown : OutCrown) (obj : List (String × Val)) : 
         | .all => .group (st.errors ++ [("", cls)])
         | _ => .error "" cls
 
+/-! ### well-formed output crowns (specification side)
+
+  What `_validate_params`, the crown classes and the layout provider guarantee; a hypothesis of the dumper
+  theorems, evaluated by the driver on every crown the layout model builds (op `layout`, field `wf`). -/
+
+def keysNodup {α : Type} : List (String × α) → Bool
+  | [] => true
+  | (k, _) :: r => !(r.any fun kv => kv.1 == k) && keysNodup r
+
+def OutCrown.isField : OutCrown → Bool
+  | .field _ => true
+  | _ => false
+
+mutual
+/-- dict keys are distinct (a Python dict), sieves are attached to field children only (all that
+    `OutCrownBuilder` produces), a field directly under a list node is required
+    (`get_optional_fields_at_list_crown`) -/
+def OutCrown.wf (cfg : DumpCfg) : OutCrown → Bool
+  | .dict m s => keysNodup m && OutCrown.wfD cfg s m
+  | .list m => OutCrown.wfL cfg m
+  | .field _ => true
+  | .none _ => true
+def OutCrown.wfD (cfg : DumpCfg) (s : List (String × Val)) : List (String × OutCrown) → Bool
+  | [] => true
+  | (k, c) :: r => (c.isField || (s.lookup k).isNone) && OutCrown.wf cfg c && OutCrown.wfD cfg s r
+def OutCrown.wfL (cfg : DumpCfg) : List OutCrown → Bool
+  | [] => true
+  | c :: r =>
+    (match c with
+     | .field id => (cfg.field id).required
+     | _ => true) && OutCrown.wf cfg c && OutCrown.wfL cfg r
+end
+
 end Adaptix.Layout
